@@ -486,6 +486,73 @@ def run_sweep(case, rec):
     rec.event("sweep:" + a)
 
 
+# ------------------------------------------------------------------ very long messages (bit counters past 2^32, K12 chunk counter past 255)
+BIG_ALGS = ["MD4", "MD5", "RIPEMD160", "SHA1", "SHA224", "SHA256", "SHA384", "SHA512", "SHA512-256", "SHA3_256", "SHA3_512", "BLAKE2b", "BLAKE2s", "SHAKE128",
+            "HMAC-SHA256", "HMAC-SHA512"]
+
+
+def cases_big(tier, shard, nshards):
+    out = []
+    sizes = [(1 << 29) + 3] if tier == "quick" else [(1 << 29) - 1, (1 << 29) + 3, (1 << 32) + 5]
+    for a in BIG_ALGS:
+        for n in sizes:
+            out.append({"alg": a, "n": n})
+    # KangarooTwelve: more than 255 leaves: length_encode(n-1) grows by one byte (65536 leaves = 512 MiB is beyond the pure-Python reference)
+    out.append({"alg": "KangarooTwelve", "n": 257 * 8192 + 5})
+    out.append({"alg": "KangarooTwelve", "n": 256 * 8192})
+    return [c for k, c in enumerate(out) if k % nshards == shard]
+
+
+def run_big(case, rec):
+    import hmac as pyhmac
+    a, n = case["alg"], case["n"]
+    chunk = gen.expand(b"bigmsg", 1 << 24)
+    if a == "KangarooTwelve":
+        from Crypto.Hash import KangarooTwelve
+        msg = (chunk * (n // len(chunk) + 1))[:n]
+        got = bytes(KangarooTwelve.new(data=msg).read(32))
+        exp = keccak.k12(msg, 32)
+        if got != exp:
+            raise Violation("bigmsg/KangarooTwelve/wrong-output", "K12 over %d bytes (%d leaves) differs from RFC 9861" % (n, (n + 8191) // 8192 - 1), n=n)
+        rec.nt(a, n)
+        rec.event("bigmsg:" + a)
+        rec.sample({"alg": a, "bytes": n})
+        return
+    if a.startswith("HMAC-"):
+        from Crypto.Hash import HMAC
+        hn = a[5:]
+        lib = HMAC.new(b"key-for-bigmsg", digestmod=oracles.lib_hash_module(hn))
+        ref = pyhmac.new(b"key-for-bigmsg", digestmod=oracles.HASHES[hn][3])
+    elif a in ("BLAKE2b", "BLAKE2s"):
+        lib = importlib.import_module("Crypto.Hash." + a).new(digest_bytes=64 if a == "BLAKE2b" else 32)
+        ref = hashlib.blake2b() if a == "BLAKE2b" else hashlib.blake2s()
+    elif a == "SHAKE128":
+        from Crypto.Hash import SHAKE128
+        lib = SHAKE128.new()
+        ref = hashlib.shake_128()
+    else:
+        lib = oracles.lib_hash_new(a)
+        try:
+            ref = hashlib.new(oracles.HASHES[a][3] or a.lower())
+        except ValueError:
+            raise Skip()        # no fast second implementation of this algorithm in the sandbox
+    left = n
+    while left:
+        m = chunk if left >= len(chunk) else chunk[:left]
+        lib.update(m)
+        ref.update(m)
+        left -= len(m)
+    if a == "SHAKE128":
+        got, exp = bytes(lib.read(32)), ref.digest(32)
+    else:
+        got, exp = bytes(lib.digest()), ref.digest()
+    if got != exp:
+        raise Violation("bigmsg/%s/wrong-digest" % a, "digest of a %d-byte message (%d bits) differs from the second implementation" % (n, 8 * n), n=n)
+    rec.nt(a, n)
+    rec.event("bigmsg:" + a)
+    rec.sample({"alg": a, "bytes": n, "bits_over_2^32": 8 * n - (1 << 32)})
+
+
 CHECKS = [
     Check("hash", run=run_hash, strategy=strat_hash, examples=(30000, 400000), shards=(16, 16),
           rule="fixed-output hashes (one-shot and update) vs hashlib/pure references; attributes"),
@@ -495,6 +562,9 @@ CHECKS = [
           rule="TupleHash128/256 on generated tuples (empty items, regrouped update calls)"),
     Check("mac", run=run_mac, strategy=strat_mac, examples=(16000, 250000), shards=(16, 16),
           rule="HMAC/CMAC/KMAC/Poly1305/keyed BLAKE2 tag == reference; verify/hexverify accept iff candidate == reference tag"),
+    Check("bigmsg", run=run_big, cases=cases_big, shards=(9, 16),
+          rule="messages of 2^29+3 bytes (bit length just past 2^32; thorough: also 2^29-1 and 2^32+5 bytes) for every hash with a fast second "
+               "implementation and HMAC; KangarooTwelve with 256/257 leaves"),
     Check("sweep", run=run_sweep, cases=cases_sweep, shards=(8, 16), exhaustive=False,
           rule="every message length 0..N for each fixed-output hash; K12 lengths around the 8192-byte chunk"),
 ]
